@@ -331,6 +331,8 @@ class Interp:
                 return ('asgn', UNDEF, 2)
             if e.get('d') == 'enum':
                 return ('enum', n.split('::')[-1])
+            if n.split('::')[-1].startswith(('tk_', 's_')) and e.get('d') in ('global', 'member', None):
+                return ('token', n.split('::')[-1])       # a symbol-name constant of the logic
             raise Unmodelled('unknown name %s at line %s' % (n, e.get('ln')))
         if k == 'mem' and see_through(e['b']).get('k') == 'this' and ('mem:' + e['n']) in self.oracle:
             return self.oracle['mem:' + e['n']](self, [self.env.get('this', ('this',))], e)
@@ -342,6 +344,10 @@ class Interp:
             if e['n'].startswith('sortTo'):
                 return ('symmap',)          # sort -> symbol of this constructor's operator
             return ('member', e['n'])       # opaque: only passed on to calls that are answered by an oracle
+        if k == 'mem' and path_of(e) in self.env:
+            return self.env[path_of(e)]
+        if k == 'mem' and path_of(e) and not path_of(e).startswith('this.') and path_of(e).split('.')[0] in self.env and self.env[path_of(e).split('.')[0]] in (UNDEF, []):
+            return UNDEF                   # a field of a default-constructed local aggregate that was not written yet
         if k == 'mem':
             b = self.val(e['b'])
             if isinstance(b, tuple) and b and b[0] == 'asgn' and e['n'] in ('tr', 'sgn'):
@@ -399,8 +405,8 @@ class Interp:
                     raise Unmodelled('element assignment at line %s' % e.get('ln'))
                 n = path_of(e['l'])
                 r = self.val(e['r'])
-                if n in self.env or (n or '').startswith('this.'):
-                    self.env[n] = r          # a member of the object behaves like a variable of the evaluation
+                if n in self.env or (n or '').startswith('this.') or ((n or '').split('.')[0] in self.env and '.' in (n or '')):
+                    self.env[n] = r          # a member of the object / a field of a local aggregate behaves like a variable of the evaluation
                     return r
                 raise Unmodelled('assignment at line %s' % e.get('ln'))
             l, r = self.val(e['l']), self.val(e['r'])
@@ -462,6 +468,9 @@ class Interp:
             t = see_through(tgt)
             if isinstance(t, dict) and t.get('k') == 'ref' and t['n'] in self.env:
                 self.env[t['n']] = v
+                return v
+            if isinstance(t, dict) and t.get('k') == 'mem' and path_of(t) and not path_of(t).startswith('this.') and path_of(t).split('.')[0] in self.env:
+                self.env[path_of(t)] = v          # a field of a local aggregate
                 return v
             if isinstance(t, dict) and t.get('k') == 'call' and t.get('op') == '[]':
                 base = self.val(t['recv'])
@@ -566,6 +575,8 @@ class Interp:
             raise Unmodelled('%s at line %s' % (callee(e), e.get('ln')))
         if e.get('recv') is not None and (path_of(e['recv']) or '') == 'this.term_store':
             # past all simplifications: the constructor builds the plain application
+            if m in self.oracle:
+                return self.oracle[m](self, [self.val(x) for x in args], e)
             if m == 'lookupSymbol' and len(args) >= 2:
                 lst = self.val(args[1])
                 raise Ret((self.default_op,) + tuple(lst))
@@ -676,37 +687,55 @@ def check_nary(fx, func, name, ctor_eval, max_len=3, all_orders=False):
     return n, bad
 
 
-VSHAPES = [('c', 0), ('c', 1), ('u', 'u'), ('u', 'v')]
+VSHAPES = [('c', 0), ('c', 1), ('u', 'u'), ('u', 'v'), ('u', 'w')]
+
+
+def distinct_oracles(budget_left):
+    return {
+        'lookupSymbol': lambda i, a, nd: ('sym', 'distinct'),
+        'moveTo': lambda i, a, nd: (i.env.__setitem__(path_of(see_through(nd['a'][0])), list(i.val(nd['recv']))), None)[1],
+        'hasCplxKey': lambda i, a, nd: False,
+        'newTerm': lambda i, a, nd: ('distinct',) + tuple(a[1]),
+        'addToCplxMap': lambda i, a, nd: None,
+        'isBooleanOperator': lambda i, a, nd: False,
+        'mem:distinctClassCount': lambda i, a, nd, b=budget_left: 0 if b else 1000,
+        'mem:maxDistinctClasses': lambda i, a, nd: 32,
+    }
+
+
+DISTINCT_CONSTS = {'maxDistinctClasses': 32}
 
 
 def check_distinct(fx, func, ctor_eval, max_len=4):
-    """mkDistinct on arguments of a value sort: constants c0, c1 (different values) and variables u, v over a three-element domain plus the constants' values"""
+    """mkDistinct on arguments of a value sort: constants c0, c1 (different values) and variables u, v, w over a domain that lets every equality pattern occur;
+    both while the budget of distinction classes lasts (a `distinct` term is built) and after it is used up (the pairwise expansion is built)"""
     bad = []
     n = 0
-    dom = ['const0', 'const1', 'other']
+    dom = ['const0', 'const1', 'o1', 'o2']
     for ln in range(0, max_len + 1):
-        for combo in itertools.product(VSHAPES, repeat=ln):
-            for order in ({'c0': 0, 'c1': 1, 'u': 2, 'v': 3}, {'u': 0, 'c1': 1, 'v': 2, 'c0': 3}):
-                n += 1
-                it = Interp(fx, func, 'distinct', ctor_eval, value_mode=True)
-                it.order = order
-                try:
-                    out = it.run(list(combo))
-                except Thrown:
-                    bad.append((combo, UNDEF, 'throws'))
-                    break
-                if out == UNDEF or not isinstance(out, tuple):
-                    bad.append((combo, UNDEF, 'returns no term'))
-                    break
-                wrong = None
-                for uv in itertools.product(dom, repeat=2):
-                    env = {'u': uv[0], 'v': uv[1]}
-                    vals = [ev_value(s_, env) for s_ in combo]
-                    want = len(set(vals)) == len(vals)
-                    if ev_shape(out, env) != want:
-                        wrong = env
-                        break
-                if wrong:
-                    bad.append((combo, out, wrong))
-                    break
+        shapes = VSHAPES if ln <= 3 else VSHAPES[:4]
+        for combo in itertools.product(shapes, repeat=ln):
+            for order in ({'c0': 0, 'c1': 1, 'u': 2, 'v': 3, 'w': 4}, {'u': 0, 'c1': 1, 'w': 2, 'v': 3, 'c0': 4}):
+                for budget_left in (True, False):
+                    n += 1
+                    it = Interp(fx, func, 'distinct', ctor_eval, value_mode=True)
+                    it.order = order
+                    it.oracle = distinct_oracles(budget_left)
+                    try:
+                        ps = func['params']
+                        out = it.run_env(dict(DISTINCT_CONSTS, **{ps[0]['n']: list(combo)}))
+                    except Thrown:
+                        bad.append((combo, UNDEF, 'throws'))
+                        continue
+                    if out == UNDEF or not isinstance(out, tuple):
+                        bad.append((combo, UNDEF, 'returns no term'))
+                        continue
+                    for uvw in itertools.product(dom, repeat=3):
+                        env = {'u': uvw[0], 'v': uvw[1], 'w': uvw[2]}
+                        vals = [ev_value(s_, env) for s_ in combo]
+                        if ev_shape(out, env) != (len(set(vals)) == len(vals)):
+                            bad.append((combo, out, dict(env, classes_left=budget_left)))
+                            break
+                if bad:
+                    return n, bad
     return n, bad
